@@ -22,7 +22,8 @@ def evaluate(prog, argv, W, stack=GENEROUS, unchecked=False, poison_seed=None,
               'style_seed': style_seed, 'lint': lint}
     ev.src = src if src is not None else render.program(
         prog, render.Style(style_seed) if style_seed is not None else render.PLAIN)
-    ev.ref = ref if ref is not None else refmodel.run(prog, argv, W, checked=not unchecked)
+    ev.ref = ref if ref is not None else refmodel.run(prog, argv, W, checked=not unchecked,
+                                                      stack_bytes=stack * W)
     ev.problems = []
     ev.res = None
     ev.mon = None
